@@ -187,6 +187,15 @@ def tabulate():
             if hasattr(obj, 'cache_parameters'):
                 sizes[name] = obj.cache_parameters()['maxsize']
     T['lruSizes'] = sizes
+
+    # (package D / C18) `_permute` of make_elements_positive on a tet mesh: local vertex order of a re-oriented tet
+    fdp = FEMData(nodes=FEMAttribute('NODE', ids=np.arange(4) + 1, data=np.eye(4, 3), silent=True),
+                  elements=FEMElementalAttribute('ELEMENT', {
+                      'tet': FEMAttribute('tet', ids=[1], data=np.array([[1, 2, 3, 4]]), silent=True)}))
+    tp = quiet(fdp._permute, np.arange(4)[None, :])[0].tolist()
+    rp = rng.integers(1, 10**6, size=(3, 4))
+    assert np.array_equal(quiet(fdp._permute, rp.copy()), rp[:, tp]), '_permute is not an index map'
+    T['tetPermute'] = tp
     return T
 
 
@@ -219,6 +228,8 @@ def render(T):
     out.append(f"def resSkipOld : Nat := {T['resSkipOld']}")
     out.append(f"def resSkipV2 : Nat := {T['resSkipV2']}")
     out.append(f"def resMarker : List Char := {chars(T['resMarker'])}")
+    if 'tetPermute' in T:
+        out.append(f"def tetPermute : List Nat := {ll(T['tetPermute'])}")
     out += ['', 'end Femio.Gen', '']
     return '\n'.join(out)
 
